@@ -79,7 +79,7 @@ PROPS = {
                                 outs={'vikjaState', 'odalState', 'actionResp', 'actionBcast', 'assetAddResp', 'assetAddBcast', 'error'},
                                 pred=lambda d: not (d.get('topic') in ('entityDelete', 'disconnect') and d['outs'] <= {'error'}))),
     'C17': dict(modules=['Hagall.Props.C17'], profiles=['mixed', 'comp', 'pose', 'custom', 'join'], n=(240, 4000), focus=None,
-                gen_args=[], topics=slice_of(ALL_TOPICS + ['disconnect'], outs=GATED)),
+                gen_args=[], metamorphic_flags=True, topics=slice_of(ALL_TOPICS + ['disconnect'], outs=GATED)),
 }
 PROPS['C18'] = dict(modules=['Hagall.Props.C18'], profiles=['latency', 'mixed'], n=(240, 4000), focus={'signedLatency', 'pingResp'},
                     extra=['latency_stats'], topics=slice_of(['signedLatency', 'pingResp', 'ping'], outs={'pingReq', 'latencyResp', 'error', 'pingResp'}))
